@@ -29,6 +29,22 @@
 (*   Universe: div on a \in -7..7, b \in -3..3 \ {0}; floor on ints -3..3  *)
 (*   and on all half-steps in [-2, 2]. div(a, 0) is not specified.         *)
 (*                                                                         *)
+(* AWKWARD STRINGS: dicts and sets are also instantiated with "wstr", string *)
+(* keys that coincide with names a runtime might use internally (_type,     *)
+(* __index, __eq, __tostring, __newindex, __add, n), with the text of other *)
+(* values ("1", "nil", "true", "(1, 2)") and the empty string. For a plain  *)
+(* model they are keys like any other: absent until added, present until    *)
+(* removed. (At most 1 key per dict, 2 elements per set: each key is tried   *)
+(* absent and present, alone and next to another awkward key.)              *)
+(*                                                                         *)
+(* RE-ENTRANT CALLBACKS (lists of int): the function handed to map / filter *)
+(* / fold / find / for_each may itself call the library - get / fold / map  *)
+(* on the list being traversed, get / contains_key / contains on other      *)
+(* containers (AuxL, AuxD, AuxS), push on another list. In the model a      *)
+(* callback is just a function of its argument and of the VALUES of the     *)
+(* containers it mentions, so the expected results follow from the same     *)
+(* model functions (ReNames below).                                         *)
+(*                                                                         *)
 (* This module models ONE container per behaviour. Value semantics ACROSS  *)
 (* containers (a container made by map / filter / from_list / ... is       *)
 (* independent of what it was made from) is module SyltShare, which        *)
@@ -38,6 +54,9 @@ EXTENDS SyltValues, Json, IOUtils
 
 EnvInt(name, dflt) == IF name \in DOMAIN IOEnv THEN atoi(IOEnv[name]) ELSE dflt
 MaxLen == EnvInt("MAXLEN", 3)        \* longest list / most keys / most set elements
+\* most keys of a dict / elements of a set, longest from_list literal of an instantiation
+KeyMax(k, t) == IF t = "wstr" THEN (IF k = "dict" THEN 1 ELSE 2) ELSE MaxLen
+LitMax(k, t) == IF t = "wstr" THEN (IF k = "dict" THEN 1 ELSE 2) ELSE (IF k = "dict" THEN 2 ELSE 3)
 Big    == EnvInt("BIG", 0) = 1       \* four values per type instead of three (simulation tier)
 
 Just(v) == VariantV("Just", v)
@@ -49,6 +68,7 @@ P(a, b) == TupleV(<<a, b>>)
 Op(name, args) == [op |-> name, a |-> args]
 
 Types == {"int", "str", "pair", "spair"}
+KeyTypes == Types \cup {"wstr"}        \* dicts and sets only
 
 \* the values of an instantiation, in a fixed order (also the key universe of dicts)
 ValSeq(ty) ==
@@ -58,6 +78,8 @@ ValSeq(ty) ==
                        \o (IF Big THEN <<P(IntV(0), IntV(0))>> ELSE <<>>)
     [] ty = "spair" -> <<P(StrV("a, b"), StrV("c")), P(StrV("a"), StrV("b, c")), P(StrV("a"), StrV("b"))>>
                        \o (IF Big THEN <<P(StrV("b"), StrV("a"))>> ELSE <<>>)
+    [] ty = "wstr"  -> <<StrV("_type"), StrV("__index"), StrV("__eq"), StrV("__tostring"), StrV("__newindex"), StrV("__add"),
+                         StrV("n"), StrV("1"), StrV("nil"), StrV("true"), StrV(""), StrV("(1, 2)")>>
 Vals(ty) == {ValSeq(ty)[i] : i \in 1..Len(ValSeq(ty))}
 
 \* what dicts of an instantiation map their keys to
@@ -66,6 +88,7 @@ DValSeq(ty) ==
     [] ty = "str"   -> <<IntV(7), IntV(8)>>
     [] ty = "pair"  -> <<P(IntV(2), IntV(3)), P(IntV(3), IntV(2))>>
     [] ty = "spair" -> <<IntV(7), IntV(8)>>
+    [] ty = "wstr"  -> <<IntV(7), IntV(8)>>
 DVals(ty) == {DValSeq(ty)[i] : i \in 1..Len(DValSeq(ty))}
 
 \* the members of S in the fixed order
@@ -89,7 +112,25 @@ FoldFns(ty) == CASE ty = "int"  -> {"poly3"}
                 [] ty = "pair"  -> {"poly5"}
                 [] ty = "spair" -> {"catall"}
 
-ApplyFn(f, v) ==
+(* Re-entrant callbacks (ty = "int"): they mention the list being traversed *)
+(* (parameter c of ApplyFnC / ApplyPredC) and three other containers that  *)
+(* every such program declares.                                            *)
+AuxL == <<IntV(2), IntV(0), IntV(1)>>
+AuxD == [q \in {IntV(0), IntV(2)} |-> IF q = IntV(0) THEN IntV(1) ELSE IntV(0)]
+AuxS == {IntV(1), IntV(2)}
+AuxRec == [l |-> [k |-> "list", es |-> AuxL],
+           d |-> [k |-> "list", es |-> <<TupleV(<<IntV(0), IntV(1)>>), TupleV(<<IntV(2), IntV(0)>>)>>],
+           s |-> [k |-> "list", es |-> <<IntV(1), IntV(2)>>]]
+ReMapFns  == {"auxget", "selfsum", "dget", "nestmap"}
+RePreds   == {"auxget1", "selfget0", "indict", "inset"}
+ReFoldFns == {"getacc"}
+EachFns   == {"pushget", "pushhas"}
+ReNames   == ReMapFns \cup RePreds \cup ReFoldFns \cup EachFns
+RECURSIVE SumL(_)
+SumL(s) == IF s = <<>> THEN 0 ELSE Head(s).v + SumL(Tail(s))
+OrDflt(m, d) == IF m.tag = "Just" THEN m.val ELSE d
+
+ApplyFnC(f, v, c) ==
   CASE f = "inc"    -> IntV(v.v + 1)
     [] f = "mkpair" -> P(v, v)
     [] f = "dup"    -> StrV(v.v \o v.v)
@@ -97,8 +138,15 @@ ApplyFn(f, v) ==
     [] f = "swap"   -> P(v.es[2], v.es[1])
     [] f = "fst"    -> v.es[1]
     [] f = "join"   -> StrV(v.es[1].v \o v.es[2].v)
+    [] f = "auxget"  -> LET i == v.v IN IF i >= 0 /\ i < Len(AuxL) THEN AuxL[i + 1] ELSE IntV(0 - 1)   \* orDefault(get(aux, x), -1)
+    [] f = "selfsum" -> IntV(v.v + SumL(c))                                                            \* fold(c, x, +)
+    [] f = "dget"    -> IF v \in DOMAIN AuxD THEN AuxD[v] ELSE IntV(0 - 1)                             \* orDefault(dict.get(auxd, x), -1)
+    [] f = "nestmap" -> IntV(v.v * SumL(AuxL))                                                         \* fold(map(aux, y -> y * x), 0, +)
+    [] f = "pushget" -> IntV((LET i == v.v IN IF i >= 0 /\ i < Len(AuxL) THEN AuxL[i + 1].v ELSE 0 - 1) + Len(c))
+    [] f = "pushhas" -> BoolV(\E i \in 1..Len(c) : c[i] = IntV(v.v + 1))                               \* contains(c, x + 1)
+ApplyFn(f, v) == ApplyFnC(f, v, <<>>)      \* callbacks that do not mention the traversed list
 
-ApplyPred(p, v) ==
+ApplyPredC(p, v, c) ==
   CASE p = "pos"    -> v.v > 0
     [] p = "ne1"    -> v.v # 1
     [] p = "gt5"    -> v.v > 5
@@ -111,14 +159,20 @@ ApplyPred(p, v) ==
     [] p = "fsta"   -> v.es[1].v = "a"
     [] p = "sndc"   -> v.es[2].v = "c"
     [] p = "fstzz"  -> v.es[1].v = "zz"
+    [] p = "auxget1"  -> v.v >= 0 /\ v.v < Len(AuxL) /\ AuxL[v.v + 1] = IntV(1)     \* get(aux, x) == Just 1
+    [] p = "selfget0" -> c # <<>> /\ c[1] = v                                        \* get(c, 0) == Just x
+    [] p = "indict"   -> v \in DOMAIN AuxD                                           \* dict.contains_key(auxd, x)
+    [] p = "inset"    -> v \in AuxS                                                  \* set.contains(auxs, x)
+ApplyPred(p, v) == ApplyPredC(p, v, <<>>)
 
 \* fold(l, init, f) calls f(item, acc)
-FoldInit(f) == CASE f \in {"poly3", "poly5"} -> IntV(0) [] OTHER -> StrV("")
+FoldInit(f) == CASE f \in {"poly3", "poly5", "getacc"} -> IntV(0) [] OTHER -> StrV("")
 FoldStep(f, v, acc) ==
   CASE f = "poly3"  -> IntV(acc.v * 3 + v.v)
     [] f = "poly5"  -> IntV(acc.v * 5 + v.es[1].v * 2 + v.es[2].v)
     [] f = "cat"    -> StrV(acc.v \o v.v)
     [] f = "catall" -> StrV(acc.v \o v.es[1].v \o v.es[2].v)
+    [] f = "getacc" -> IntV(acc.v * 3 + (LET i == v.v IN IF i >= 0 /\ i < Len(AuxL) THEN AuxL[i + 1].v ELSE 5))   \* a * 3 + orDefault(get(aux, v), 5)
 
 ---------------------------------------------------------------------------
 (* Plain models: lists. Indices are 0-based as in Sylt.                    *)
@@ -126,10 +180,11 @@ LGet(s, i) == IF i >= 0 /\ i < Len(s) THEN Just(s[i + 1]) ELSE None
 LLast(s)   == LGet(s, Len(s) - 1)
 LSet(s, i, x) == IF i >= 0 /\ i < Len(s) THEN [s EXCEPT ![i + 1] = x] ELSE s   \* out of range: nothing happens
 LPop(s)    == IF s = <<>> THEN <<>> ELSE SubSeq(s, 1, Len(s) - 1)
-LMap(s, f) == [i \in 1..Len(s) |-> ApplyFn(f, s[i])]
-RECURSIVE LFilter(_, _)
-LFilter(s, p) == IF s = <<>> THEN <<>>
-                 ELSE (IF ApplyPred(p, Head(s)) THEN <<Head(s)>> ELSE <<>>) \o LFilter(Tail(s), p)
+LMap(s, f) == [i \in 1..Len(s) |-> ApplyFnC(f, s[i], s)]
+RECURSIVE LFilterC(_, _, _)
+LFilterC(s, p, c) == IF s = <<>> THEN <<>>
+                     ELSE (IF ApplyPredC(p, Head(s), c) THEN <<Head(s)>> ELSE <<>>) \o LFilterC(Tail(s), p, c)
+LFilter(s, p) == LFilterC(s, p, s)
 RECURSIVE LFold(_, _, _)
 LFold(s, acc, f) == IF s = <<>> THEN acc ELSE LFold(Tail(s), FoldStep(f, Head(s), acc), f)
 LFind(s, p) == LET hits == LFilter(s, p) IN IF hits = <<>> THEN None ELSE Just(hits[1])
@@ -193,7 +248,7 @@ Kinds == IF "KINDS" \in DOMAIN IOEnv /\ IOEnv.KINDS = "containers" THEN {"list",
 
 Init ==
   /\ kind \in Kinds
-  /\ ty \in (IF kind = "helper" THEN {"num"} ELSE Types)
+  /\ ty \in (IF kind = "helper" THEN {"num"} ELSE IF kind = "list" THEN Types ELSE KeyTypes)
   /\ made = FALSE
   /\ st = (IF kind = "set" THEN {} ELSE <<>>)
   /\ hist = <<>>
@@ -201,7 +256,9 @@ Init ==
 
 \* which case of the operation's contract a transition exercises (goes into the violation signature)
 ArgClass(o) ==
-  IF kind = "list" /\ o.op \in {"get", "set"}
+  IF kind = "list" /\ o.op \in {"map", "filter", "fold", "find", "for_each"}
+    THEN (IF o.a[Len(o.a)].name \in ReNames THEN "reentrant" ELSE "-")
+  ELSE IF kind = "list" /\ o.op \in {"get", "set"}
     THEN (LET i == o.a[1].v IN IF i < 0 THEN "neg" ELSE IF i < Len(st) THEN "in" ELSE "past")
   ELSE IF kind = "list" /\ o.op \in {"pop", "last"} THEN (IF st = <<>> THEN "empty" ELSE "nonempty")
   ELSE IF kind = "dict" /\ o.op \in {"update", "get", "remove", "contains_key"}
@@ -216,7 +273,7 @@ ArgClass(o) ==
 
 Emit(t, o, r, s2) ==
   PrintT(<<"REPLAY", ToJson([ty |-> t, kind |-> kind, hist |-> hist, pre |-> ToString(<<made, st>>), op |-> o,
-                             arg |-> ArgClass(o), res |-> r, obs |-> Observe(kind, ty, s2)])>>)
+                             arg |-> ArgClass(o), res |-> r, obs |-> Observe(kind, ty, s2), aux |-> AuxRec])>>)
 
 Step(o, r, s2) ==
   /\ st' = s2
@@ -245,15 +302,25 @@ Fold    == IsList /\ \E f \in FoldFns(ty) : Step(Op("fold", <<FoldInit(f), FnV(f
 Find    == IsList /\ \E p \in Preds(ty) : Step(Op("find", <<FnV(p)>>), LFind(st, p), st)
 Contains == IsList /\ \E x \in Vals(ty) : Step(Op("contains", <<x>>), BoolV(LContains(st, x)), st)
 Last    == IsList /\ Step(Op("last", <<>>), LLast(st), st)
+\* the same operations with callbacks that call the library themselves
+IsIntList == IsList /\ ty = "int"
+ReMap    == IsIntList /\ \E f \in ReMapFns : Step(Op("map", <<FnV(f)>>), ListL(LMap(st, f)), st)
+ReFilter == IsIntList /\ \E p \in RePreds : Step(Op("filter", <<FnV(p)>>), ListL(LFilter(st, p)), st)
+ReFold   == IsIntList /\ \E f \in ReFoldFns : Step(Op("fold", <<FoldInit(f), FnV(f)>>), LFold(st, FoldInit(f), f), st)
+ReFind   == IsIntList /\ \E p \in RePreds : Step(Op("find", <<FnV(p)>>), LFind(st, p), st)
+\* for_each with a callback that pushes what it computed onto another list: that list is the result
+ForEach  == IsIntList /\ \E g \in EachFns : Step(Op("for_each", <<FnV(g)>>), ListL(LMap(st, g)), st)
 
 (* ---- dicts ---------------------------------------------------------- *)
 Entries(t) == {P(key, w) : key \in Vals(t), w \in DVals(t)}
 DictNew      == kind = "dict" /\ ~made /\ Step(Op("new", <<>>), Void, DEmpty)
 DictFromList == /\ kind = "dict" /\ ~made
-                /\ \E l \in SeqsUpTo(Entries(ty), 2) : Step(Op("from_list", <<ListL(l)>>), Void, DFromList(DEmpty, l))
+                /\ \E l \in SeqsUpTo(Entries(ty), LitMax("dict", ty)) :
+                     /\ Cardinality(DOMAIN DFromList(DEmpty, l)) <= KeyMax("dict", ty)
+                     /\ Step(Op("from_list", <<ListL(l)>>), Void, DFromList(DEmpty, l))
 DictUpdate   == /\ IsDict
                 /\ \E key \in Vals(ty), w \in DVals(ty) :
-                     /\ key \in DOMAIN st \/ Cardinality(DOMAIN st) < MaxLen
+                     /\ key \in DOMAIN st \/ Cardinality(DOMAIN st) < KeyMax("dict", ty)
                      /\ Step(Op("update", <<key, w>>), Void, DUpdate(st, key, w))
 DictGet      == IsDict /\ \E key \in Vals(ty) : Step(Op("get", <<key>>), DGet(st, key), st)
 DictRemove   == IsDict /\ \E key \in Vals(ty) : Step(Op("remove", <<key>>), Void, DRemove(st, key))
@@ -263,8 +330,8 @@ DictContainsKey == IsDict /\ \E key \in Vals(ty) : Step(Op("contains_key", <<key
 (* ---- sets ----------------------------------------------------------- *)
 SetNew      == kind = "set" /\ ~made /\ Step(Op("new", <<>>), Void, {})
 SetFromList == /\ kind = "set" /\ ~made
-               /\ \E l \in SeqsUpTo(Vals(ty), 3) : Cardinality(SFromList(l)) <= MaxLen /\ Step(Op("from_list", <<ListL(l)>>), Void, SFromList(l))
-SetAdd      == IsSet /\ \E x \in Vals(ty) : (x \in st \/ Cardinality(st) < MaxLen) /\ Step(Op("add", <<x>>), Void, st \cup {x})
+               /\ \E l \in SeqsUpTo(Vals(ty), LitMax("set", ty)) : Cardinality(SFromList(l)) <= KeyMax("set", ty) /\ Step(Op("from_list", <<ListL(l)>>), Void, SFromList(l))
+SetAdd      == IsSet /\ \E x \in Vals(ty) : (x \in st \/ Cardinality(st) < KeyMax("set", ty)) /\ Step(Op("add", <<x>>), Void, st \cup {x})
 SetContains == IsSet /\ \E x \in Vals(ty) : Step(Op("contains", <<x>>), BoolV(x \in st), st)
 SetRemove   == IsSet /\ \E x \in Vals(ty) : Step(Op("remove", <<x>>), Void, st \ {x})
 SetLen      == IsSet /\ Step(Op("len", <<>>), IntV(Cardinality(st)), st)
@@ -312,6 +379,7 @@ HIsJust == kind = "helper" /\ \E t \in MaybeTypes : \E m \in Maybes(t) : HStep(t
 HIsNone == kind = "helper" /\ \E t \in MaybeTypes : \E m \in Maybes(t) : HStep(t, Op("isNone", <<m>>), BoolV(m.tag = "None"))
 
 Next == \/ ListLit \/ Push \/ Prepend \/ Pop \/ Get \/ Set \/ LenL \/ Map \/ Filter \/ Fold \/ Find \/ Contains \/ Last
+        \/ ReMap \/ ReFilter \/ ReFold \/ ReFind \/ ForEach
         \/ DictNew \/ DictFromList \/ DictUpdate \/ DictGet \/ DictRemove \/ DictLen \/ DictContainsKey
         \/ SetNew \/ SetFromList \/ SetAdd \/ SetContains \/ SetRemove \/ SetLen
         \/ HMin \/ HMax \/ HAbs \/ HClamp \/ HSign \/ HDiv \/ HFloor \/ HOrDefault \/ HIsJust \/ HIsNone
@@ -322,16 +390,16 @@ TypeOK ==
   /\ kind = "list" => /\ Len(st) <= MaxLen
                       /\ \A i \in 1..Len(st) : st[i] \in Vals(ty)
   /\ kind = "dict" => /\ DOMAIN st \subseteq Vals(ty)
-                      /\ Cardinality(DOMAIN st) <= MaxLen
+                      /\ Cardinality(DOMAIN st) <= KeyMax("dict", ty)
                       /\ \A q \in DOMAIN st : st[q] \in DVals(ty)
-  /\ kind = "set"  => st \subseteq Vals(ty) /\ Cardinality(st) <= MaxLen
+  /\ kind = "set"  => st \subseteq Vals(ty) /\ Cardinality(st) <= KeyMax("set", ty)
   /\ kind = "helper" => st = <<>> /\ ~made
 
 (* Model sanity, evaluated on EVERY transition (ACTION_CONSTRAINT): the    *)
 (* algebra a reader expects of lists, maps and sets holds between the      *)
 (* pre-state, the operation, its result and the post-state. It never       *)
 (* filters a transition: a false conjunct is a TLC error (exit 2).         *)
-PureOps == {"get", "len", "map", "filter", "fold", "find", "contains", "last", "contains_key"}
+PureOps == {"get", "len", "map", "filter", "fold", "find", "contains", "last", "contains_key", "for_each"}
 Card(s) == Cardinality(s)
 
 ListSane(o, r, pre, post) ==
@@ -352,11 +420,12 @@ ListSane(o, r, pre, post) ==
   /\ o.op = "get" => Assert((r = None) <=> (o.a[1].v < 0 \/ o.a[1].v >= Len(pre)), "get")
   /\ o.op = "len" => Assert(r = IntV(Len(pre)), "len")
   /\ o.op = "map" => Assert(Len(r.es) = Len(pre), "map keeps the length")
+  /\ o.op = "for_each" => Assert(Len(r.es) = Len(pre), "for_each calls its function once per element")
   /\ o.op = "filter" => Assert(/\ Len(r.es) <= Len(pre)
-                               /\ \A i \in 1..Len(r.es) : ApplyPred(o.a[1].name, r.es[i]) /\ LContains(pre, r.es[i])
-                               /\ Len(r.es) = Card({i \in 1..Len(pre) : ApplyPred(o.a[1].name, pre[i])}), "filter")
+                               /\ \A i \in 1..Len(r.es) : ApplyPredC(o.a[1].name, r.es[i], pre) /\ LContains(pre, r.es[i])
+                               /\ Len(r.es) = Card({i \in 1..Len(pre) : ApplyPredC(o.a[1].name, pre[i], pre)}), "filter")
   /\ o.op = "find" => Assert(/\ (r = None) <=> (LFilter(pre, o.a[1].name) = <<>>)
-                             /\ r # None => ApplyPred(o.a[1].name, r.val) /\ LContains(pre, r.val), "find")
+                             /\ r # None => ApplyPredC(o.a[1].name, r.val, pre) /\ LContains(pre, r.val), "find")
   /\ o.op = "contains" => Assert(r.v <=> (o.a[1] \in SFromList(pre)), "contains")
   /\ o.op = "last" => Assert(r = LGet(pre, Len(pre) - 1) /\ ((r = None) <=> (pre = <<>>)), "last")
   /\ o.op = "fold" => Assert(pre = <<>> => r = o.a[1], "fold of the empty list is the initial value")
